@@ -118,10 +118,48 @@ func c19History(v asmVariant, capacity int, ops []asmOp, window, viaClone bool) 
 	return ""
 }
 
+// c19DryClone: the nil-target emitter measures a program that is partly emitted through a Clone(nil) that
+// is Appended back: PC, tracked flags and label addresses at the end must be those of an emitter with a
+// buffer that received the calls directly.
+func c19DryClone(v asmVariant, ops []asmOp, split int) string {
+	t := newRealEmitter(v, 224)
+	b := newRealEmitter(v, -1)
+	for _, op := range ops {
+		applyReal(t, op)
+	}
+	for _, op := range ops[:split] {
+		applyReal(b, op)
+	}
+	var pn interface{}
+	func() {
+		defer func() { pn = recover() }()
+		c := b.Clone(nil)
+		for _, op := range ops[split:] {
+			applyReal(c, op)
+		}
+		b.Append(c)
+	}()
+	if pn != nil {
+		return fmt.Sprintf("Clone(nil)/Append on an emitter without a target buffer panicked: %v", pn)
+	}
+	tb, bb := observe(t, asmLabelNames), observe(b, asmLabelNames)
+	if bb.pc != tb.pc || bb.flags != tb.flags || !sameLabels(bb.labels, tb.labels) {
+		return fmt.Sprintf("an emitter without a target buffer whose calls #%d.. went through Clone(nil)/Append reports pc=$%06x flags=%02x labels=%v, an emitter with a buffer pc=$%06x flags=%02x labels=%v", split, bb.pc, bb.flags, bb.labels, tb.pc, tb.flags, tb.labels)
+	}
+	return ""
+}
+
 func c19Run(h asmHistory) (sig, what string) {
 	ops, err := opsByName(h.Ops)
 	if err != nil {
 		return "bad-case", err.Error()
+	}
+	if h.Capacity < 0 {
+		for split := 0; split <= len(ops); split++ {
+			if d := c19DryClone(h.Variant, ops, split); d != "" {
+				return c19Classify(d), fmt.Sprintf("%+v %v: %s", h.Variant, h.Ops, d)
+			}
+		}
 	}
 	if d := c19History(h.Variant, h.Capacity, ops, h.Window, h.ViaClone); d != "" {
 		return c19Classify(d), fmt.Sprintf("%+v capacity %d window=%v via-clone=%v %v: %s", h.Variant, h.Capacity, h.Window, h.ViaClone, h.Ops, d)
@@ -165,6 +203,12 @@ func runC19(r *report.Run) {
 		}
 		size := re.Len()
 		n := 0
+		for split := 0; split <= len(ops); split++ {
+			n++
+			if d := c19DryClone(v, ops, split); d != "" {
+				return c19Classify(d), fmt.Sprintf("%+v %v: %s", v, historyNames(al, idx), d), n, &asmHistory{Variant: v, Ops: historyNames(al, idx), Capacity: -1}
+			}
+		}
 		for capacity := -1; capacity <= size+1; capacity++ {
 			// shapes: the target as a whole array (len == cap), as a window of a larger one (len < cap), and
 			// the emitter under test being a Clone over the target
@@ -196,7 +240,7 @@ func runC19(r *report.Run) {
 	r.Set("histories", hist)
 	r.Set("history_x_capacity_cases", capCases)
 	r.Set("bounds", map[string]interface{}{"history_depth": depth, "alphabet": len(asmAlphabet()), "constructor_variants": len(variants), "thorough_second_pass": "all 10 constructor variants at depth 4", "capacities": "every capacity from 0 to program size + 1, each as a whole array (len == cap), as a window of a larger canary-filled array (len < cap) and with the emitter under test being a Clone over the target, plus the nil-target (dry-run) emitter"})
-	r.Set("rule", "every call sequence up to the depth x every buffer capacity from 0 to the program's size + 1 and the nil-target emitter: each call runs on a fresh real Emitter and on a twin real Emitter with ample room that receives exactly the accepted calls (the twin tells how many bytes a call needs; nothing is predicted from a model), the target buffer given once as a whole array and once as a window of a larger array whose bytes outside the window must stay untouched; a call that does not fit must panic and leave Bytes/Len/PC/Flags/labels unchanged, the history continues after a refusal, a call that fits must leave the emitter exactly like the twin, Finalize after the history must agree with the twin's, and the nil-target emitter must report the same PC, labels and flags after every call; non-trivial = capacity below the program size or nil target (at least one call differs from the roomy run)")
+	r.Set("rule", "every call sequence up to the depth x every buffer capacity from 0 to the program's size + 1 and the nil-target emitter: each call runs on a fresh real Emitter and on a twin real Emitter with ample room that receives exactly the accepted calls (the twin tells how many bytes a call needs; nothing is predicted from a model), the target buffer given once as a whole array and once as a window of a larger array whose bytes outside the window must stay untouched; a call that does not fit must panic and leave Bytes/Len/PC/Flags/labels unchanged, the history continues after a refusal, a call that fits must leave the emitter exactly like the twin, Finalize after the history must agree with the twin's, and the nil-target emitter must report the same PC, labels and flags after every call, also when the tail of the history (every split) goes through Clone(nil) and Append; non-trivial = capacity below the program size or nil target (at least one call differs from the roomy run)")
 	r.Sample(asmHistory{Variant: variants[0], Ops: []string{"LDA_abs($1234)", "JSL($123456)", "NOP"}, Capacity: 5})
 	r.Sample(asmHistory{Variant: variants[1], Ops: []string{"SEP(#$20)", "LDA_imm8_b($7F)", "EmitBytes(17)"}, Capacity: -1})
 	r.Assume("listing lines are not part of the property's list and are not compared here")
